@@ -9,6 +9,7 @@ import (
 	"sync/atomic"
 
 	"github.com/jdillenkofer/pithos/internal/ioutils"
+	"github.com/jdillenkofer/pithos/internal/verifhook"
 )
 
 // ErrWriteInReadOnlyTransaction is returned by BeginTx when a writable
@@ -106,11 +107,18 @@ func (t *TxController) Commit(ctx context.Context) error {
 	if t.finalized {
 		return nil
 	}
+	verifhook.Point("tx.commit.begin", t)
 	for _, fn := range t.onPreCommit {
+		verifhook.Point("tx.precommit", t)
 		if hookErr := fn(ctx); hookErr != nil {
 			_ = t.Rollback(ctx)
 			return hookErr
 		}
+	}
+	verifhook.Point("tx.commit.before", t)
+	if faultErr := verifhook.Fault("tx.commit", t); faultErr != nil {
+		_ = t.Rollback(ctx)
+		return faultErr
 	}
 	err := t.tx.Commit()
 	if err != nil {
@@ -118,11 +126,15 @@ func (t *TxController) Commit(ctx context.Context) error {
 		return err
 	}
 	t.finalized = true
+	verifhook.Point("tx.commit.after", t)
 	for _, fn := range t.onAfterCommit {
+		verifhook.Point("tx.aftercommit", t)
 		if hookErr := fn(ctx); hookErr != nil {
+			verifhook.Point("tx.finalized", t)
 			return hookErr
 		}
 	}
+	verifhook.Point("tx.finalized", t)
 	return nil
 }
 
@@ -130,16 +142,19 @@ func (t *TxController) Rollback(ctx context.Context) error {
 	if !t.ownsFinalization {
 		return nil
 	}
+	verifhook.Point("tx.rollback.before", t)
 	err := t.tx.Rollback()
 	if t.finalized {
 		return err
 	}
 	t.finalized = true
 	for _, fn := range t.onRollback {
+		verifhook.Point("tx.rollbackhook", t)
 		if hookErr := fn(ctx); hookErr != nil && err == nil {
 			err = hookErr
 		}
 	}
+	verifhook.Point("tx.finalized", t)
 	return err
 }
 
